@@ -11,7 +11,8 @@ from harness.world import World
 
 BASE = 1_000_000_000          # virtual epoch (whole seconds): tick k  <->  BASE + k/2 seconds
 DIRSEL = "/d"
-REQ = {"G": b"/d\r\n", "GP": b"/d\t+\r\n", "GD": b"/d\t$\r\n", "H": b"GET /d HTTP/1.0\r\n\r\n"}
+REQ = {"G": b"/d\r\n", "GP": b"/d\t+\r\n", "GD": b"/d\t$\r\n", "H": b"GET /d HTTP/1.0\r\n\r\n",
+       "HH": b"HEAD /d HTTP/1.0\r\n\r\n"}
 
 
 class CacheWorld:
@@ -109,9 +110,25 @@ class CacheWorld:
         before = self.snapshot()
         self.listed = 0
         reads0 = envsub.ENV.clock_reads
-        r = self.w.request(REQ[p])
+        # was the cache file opened for writing during this request?  (observer chained before any hook in force)
+        prev, wrote, cpath = envsub.ENV.open_hook, [False], os.path.abspath(self.cpath)
+
+        def observe(path, mode):
+            if os.path.abspath(path) == cpath and any(c in mode for c in "wa+x"):
+                wrote[0] = True
+            return prev(path, mode) if prev is not None else None
+
+        envsub.ENV.open_hook = observe
+        try:
+            r = self.w.request(REQ[p])
+        finally:
+            envsub.ENV.open_hook = prev
         after = self.snapshot()
-        rewritten = after != before and after is not None
+        changed = after != before and after is not None
+        rewritten = changed and wrote[0]
+        touched = changed and not wrote[0]          # times (or identity) moved although nobody wrote the file
+        if touched:
+            rewritten = False
         if rewritten:
             self.stamp()
         self.virtualize_times()
@@ -123,7 +140,7 @@ class CacheWorld:
         want = ["zfill-%02d" % i for i in range(getattr(self, "filler", 0))] + (["zfill-zl"] if self.umn else [])
         if ok and [e["n"][:8] for e in fill] != want:
             view.append({"n": "?filler", "v": "none", "mt": "na", "sz": "na"})       # wrong filler entries: not a faithful listing
-        ev = {"ev": "request", "p": p, "view": view, "listed": self.listed > 0, "rewritten": rewritten, "ok": ok}
+        ev = {"ev": "request", "p": p, "view": view, "listed": self.listed > 0, "rewritten": rewritten, "touched": touched, "ok": ok}
         extra = {"raw": r.out[:600].decode("latin-1"), "log": r.log[-3:], "escaped": r.escaped,
                  "clock_reads": envsub.ENV.clock_reads - reads0}
         return ev, extra
@@ -144,6 +161,9 @@ def lex_listing(p, out: bytes):
     except Exception:
         return [], False
     entries = []
+    if p == "HH":        # HEAD: status line and headers, an empty body
+        head, sep, body = text.partition("\r\n\r\n")
+        return [], bool(text.startswith("HTTP/1.0 200 ") and sep and body == "")
     if p == "GD":
         return lex_attr_listing(text)
     if p in ("G", "GP"):
